@@ -1,5 +1,5 @@
 P = {
-    "gens": ["C14idkeeper"],
+    "gens": ["C14idkeeper", "C14stress"],
     "theorems": ["C14_distinct", "C14_distinct_clocked", "C14_distinct_ahead", "C14_clean_threshold",
                  "C14_restart_refuted", "C14_same_number", "C14_filed", "C14_ids_distinct"],
     "rule": "scenarios on a real routing.Core (epidemic, mock CLAs): fixed boundary scenarios (three submissions in one "
